@@ -8,6 +8,12 @@ pub mod pcmodel;
 pub mod btok;
 pub mod slots;
 pub mod prec;
+pub mod gast;
+pub mod gprint;
+pub mod rvalue;
+pub mod refsem;
+pub mod judge;
+pub mod gen01;
 
 pub use outcome::*;
 pub use report::*;
